@@ -234,14 +234,95 @@ theorem at_eq (o : Rep) (h : WF o) (i : Nat) : atIdx o i = (abs o)[i]? := by
     | none => rw [ha] at hs; cases hs
     | some v => rw [ha] at hs; simpa using hs
 
+theorem swapAt_length {α : Type} (l : List α) (i j : Nat) : (swapAt l i j).length = l.length := by
+  unfold swapAt
+  split <;> simp
+
+theorem revLoop_length {α : Type} : ∀ (k : Nat) (l : List α), (revLoop l k).length = l.length := by
+  intro k
+  induction k with
+  | zero => intro l; rfl
+  | succ k ih => intro l; rw [revLoop, ih, swapAt_length]
+
+theorem swapAt_get {α : Type} (l : List α) (i j : Nat) (hi : i < l.length) (hj : j < l.length) (m : Nat) :
+    (swapAt l i j)[m]? = if m = j then l[i]? else if m = i then l[j]? else l[m]? := by
+  unfold swapAt
+  have h1 : l[i]? = some l[i] := List.getElem?_eq_getElem hi
+  have h2 : l[j]? = some l[j] := List.getElem?_eq_getElem hj
+  rw [h1, h2]
+  simp only [List.getElem?_set]
+  by_cases hmj : m = j
+  · subst hmj
+    simp [hj]
+  · by_cases hmi : m = i
+    · subst hmi
+      have : ¬ j = m := fun e => hmj e.symm
+      simp [this, hmj, hi]
+    · have a1 : ¬ j = m := fun e => hmj e.symm
+      have a2 : ¬ i = m := fun e => hmi e.symm
+      simp [a1, a2, hmj, hmi]
+
+theorem revLoop_get {α : Type} : ∀ (k : Nat) (l : List α), 2 * k ≤ l.length → ∀ m, m < l.length →
+    (revLoop l k)[m]? = if m < k ∨ l.length - k ≤ m then l[l.length - 1 - m]? else l[m]? := by
+  intro k
+  induction k with
+  | zero =>
+    intro l _ m hm
+    have : ¬ (m < 0 ∨ l.length - 0 ≤ m) := by omega
+    simp only [revLoop, this, if_false]
+  | succ k ih =>
+    intro l hk m hm
+    have hlen := swapAt_length l k (l.length - 1 - k)
+    rw [revLoop, ih _ (by rw [hlen]; omega) m (by rw [hlen]; exact hm), hlen]
+    have hkl : k < l.length := by omega
+    have hjl : l.length - 1 - k < l.length := by omega
+    rw [swapAt_get l k _ hkl hjl, swapAt_get l k _ hkl hjl]
+    by_cases c1 : m < k ∨ l.length - k ≤ m
+    · have c2 : m < k + 1 ∨ l.length - (k + 1) ≤ m := by omega
+      rw [if_pos c1, if_pos c2]
+      have n1 : ¬ (l.length - 1 - m = l.length - 1 - k) := by omega
+      have n2 : ¬ (l.length - 1 - m = k) := by omega
+      rw [if_neg n1, if_neg n2]
+    · rw [if_neg c1]
+      by_cases e1 : m = l.length - 1 - k
+      · have c2 : m < k + 1 ∨ l.length - (k + 1) ≤ m := by omega
+        rw [if_pos e1, if_pos c2]
+        congr 1
+        omega
+      · rw [if_neg e1]
+        by_cases e2 : m = k
+        · have c2 : m < k + 1 ∨ l.length - (k + 1) ≤ m := by omega
+          rw [if_pos e2, if_pos c2, e2]
+        · have c2 : ¬ (m < k + 1 ∨ l.length - (k + 1) ≤ m) := by omega
+          rw [if_neg e2, if_neg c2]
+
+/-- **the in-place swap loop of `Reverse` is list reversal** -/
+theorem revLoop_eq_reverse {α : Type} (l : List α) : revLoop l (l.length / 2) = l.reverse := by
+  apply List.ext_getElem?
+  intro m
+  by_cases hm : m < l.length
+  · rw [revLoop_get _ l (by omega) m hm, List.getElem?_reverse hm]
+    by_cases c : m < l.length / 2 ∨ l.length - l.length / 2 ≤ m
+    · rw [if_pos c]
+    · rw [if_neg c]
+      -- the middle element of an odd-length list stays
+      have : m = l.length - 1 - m := by omega
+      rw [← this]
+  · have h1 : (revLoop l (l.length / 2)).length ≤ m := by rw [revLoop_length]; omega
+    have h2 : l.reverse.length ≤ m := by rw [List.length_reverse]; omega
+    rw [List.getElem?_eq_none h1, List.getElem?_eq_none h2]
+
+theorem reverse_keys (o : Rep) : (reverse o).keys = o.keys.reverse := revLoop_eq_reverse o.keys
+
 theorem abs_reverse (o : Rep) : abs (reverse o) = (abs o).reverse := by
-  unfold abs reverse
+  unfold abs
+  rw [reverse_keys]
+  show List.filterMap (lookup o.vals) o.keys.reverse = _
   simp only [List.filterMap_reverse]
 
 theorem wf_reverse (o : Rep) (h : WF o) : WF (reverse o) :=
-  ⟨nodup_rev h.keysNodup, h.domNodup, fun k => by
-    show k ∈ o.keys.reverse ↔ _
-    rw [List.mem_reverse]; exact h.same k⟩
+  ⟨by rw [reverse_keys]; exact nodup_rev h.keysNodup, h.domNodup, fun k => by
+    rw [reverse_keys, List.mem_reverse]; exact h.same k⟩
 
 theorem abs_copy (o : Rep) : abs (copy o) = abs o := rfl
 
